@@ -272,6 +272,13 @@ func (e *Env) Crash() {
 	e.Boot()
 }
 
+// Reconfigure changes the specification (e.g. a source's batch size) and re-renders the configuration file; the
+// next Crash/Boot starts the process with it, over the same database.
+func (e *Env) Reconfigure(f func(sp *Spec)) {
+	f(e.Spec)
+	e.ConfJSON = e.Spec.ConfigJSON(e.PG.URL())
+}
+
 func (e *Env) Close() {
 	if e.Pool != nil {
 		e.Pool.Close()
